@@ -5,7 +5,7 @@ META = dict(
           'numbers; in every new state every registered callback is called from guest code with boundary arguments and results (incl. results that do not fit '
           'the guest type -> abort). T: all call trees of depth <= 3 (thorough: 5; from depth 3 on the second child of a node is none or equal to the first) and width <= 2 over two sandboxes (A and B hold different functions in equal slot numbers); '
           'the application-side log must equal the prescribed sequence of (function, sandbox reference, argument), guest code must see the encoded results in '
-          'the right executing instance. Configurations: mbox-lp32, mbox-wide, noop and dylib with library TLS and embedder TLS (at 63/64 table occupancy, with '
+          'the right executing instance; under noop the same trees with one callback run aborting and the enclosing callback body catching the abort. Configurations: mbox-lp32, mbox-wide, noop and dylib with library TLS and embedder TLS (at 63/64 table occupancy, with '
           're-registration churn). states = slot assignments, transitions = guest calls checked.'),
     assumptions=['calling a released entry point is a deliberate null call in the bundled backends and is not executed', 'depth <= 3 (5 thorough), width <= 2'],
 )
